@@ -12,7 +12,8 @@ NEEDS = ('threads', 'aio')
 QUICK = dict(runs=18000, wall=85)
 THOROUGH = dict(runs=400000, wall=1500)
 RULE = ('the same generated (inputs n<=12, per-element virtual durations => all completion orders, failing set, preprocessor failing set '
-        'incl. the first element, return_x, return_exceptions, capacity/concurrency) is run through a sync function and its async '
+        'incl. the first element, elements whose worker result is None or an exception object that is returned rather than raised, '
+        'return_x, return_exceptions, capacity/concurrency) is run through a sync function and its async '
         'counterpart(s): fifo_stream vs async_fifo_stream; Parmapper vs AsyncParmapper / AsyncParmapperAsync / ParmapperAsync; '
         'Server.stream vs AsyncServer.stream (same servlet); oracle: sync list == async list == reference')
 NONTRIVIAL_RULE = '>=2 inputs, >=2 threads runnable at the same step'
@@ -46,6 +47,16 @@ def gen(rng, tier):
         sc['workers'] = rng.choice([1, 2, 3])
         sc['batch'] = rng.choice([0, 0, 2])
     cfg = swarm(rng, racy=0.15, line=0.25, max_time=300.0, max_steps=600_000)
+    # (drawn last, so that the scenarios of earlier seeds keep everything else)
+    if family != 'server' and n and rng.random() < 0.3:
+        # unusual but legal worker RESULTS: None, and an exception OBJECT returned (not raised) - a value like any other in the sync
+        # functions, with or without return_exceptions, hence in the async ones too
+        free = [i for i in range(n) if not (st.get('fail') and i in st['fail']['idx'])]
+        if free and rng.random() < 0.4:
+            st['none'] = {'idx': sorted(rng.sample(free, min(len(free), rng.choice([1, 2, n]))))}
+        free = [i for i in free if not (st.get('none') and i in st['none']['idx'])]
+        if free and (not st.get('none') or rng.random() < 0.5):
+            st['ret_exc'] = {'idx': sorted(rng.sample(free, min(len(free), rng.choice([1, 2])))), 'exc': rng.choice(['ExcA', 'KeyError', 'ExcC'])}
     return {'scenario': sc, 'sim': cfg}
 
 
@@ -54,7 +65,7 @@ def shrink(sc):
     if sc['n'] > 0:
         n = sc['n'] - 1
         st2 = dict(st)
-        for key in ('fail', 'pre_fail'):
+        for key in ('fail', 'pre_fail', 'none', 'ret_exc'):
             if st2.get(key):
                 st2[key] = dict(st2[key], idx=[i for i in st2[key]['idx'] if i < n])
         yield dict(sc, n=n, stages=[st2])
@@ -69,10 +80,11 @@ def shrink(sc):
             yield dict(sc, stages=[st2])
     if st.get('return_x') and sc['family'] != 'server':
         yield dict(sc, stages=[dict(st, return_x=False)])
-    if st.get('fail'):
-        st2 = dict(st)
-        st2.pop('fail')
-        yield dict(sc, stages=[st2])
+    for key in ('fail', 'none', 'ret_exc'):
+        if st.get(key):
+            st2 = dict(st)
+            st2.pop(key)
+            yield dict(sc, stages=[st2])
 
 
 def tags(sim, sc, obs):
@@ -80,6 +92,10 @@ def tags(sim, sc, obs):
     st = sc['stages'][0]
     if st.get('pre_fail'):
         t.append('preprocessor-rejects' + (':first-element' if 0 in st['pre_fail']['idx'] else ''))
+    if st.get('ret_exc'):
+        t.append('worker-returns-exception-object' + ('' if st.get('return_exceptions') else ':return_exceptions-off'))
+    if st.get('none'):
+        t.append('worker-returns-None')
     for v in obs.get('variants', []):
         t.append('variant:' + v)
     return t
@@ -132,7 +148,7 @@ def run(sim, sc):
     fam = sc['family']
 
     def newfn(name):
-        return streams.StageFn(sim, streams.PAR_ADD, st['delays'], st.get('fail'), name=name)
+        return streams.StageFn(sim, streams.PAR_ADD, st['delays'], st.get('fail'), name=name, none=st.get('none'), ret_exc=st.get('ret_exc'))
 
     if fam == 'fifo':
         fn = newfn('sync')
